@@ -78,6 +78,15 @@ def overStartsFlat (B S A : Nat) (R : Nat → K) : Nat → K :=
 def overAugsFlat (B _S A : Nat) (R : Nat → K) : Nat → K :=
   fun k => sumTo A (fun a' => R (((k / B) / A * A + a') * B + k % B)) / (A : K)
 
+/-- What SymNCO's regrouping really averages over (layout `k = f·B + b`, flat group index `f = s·A + a`):
+the dim-1 baseline of rollout `k` is the mean over the BLOCK of `S` consecutive group indices containing `f`
+(`⌊f/S⌋·S … ⌊f/S⌋·S + S − 1`), of the same instance … -/
+def blockMeanFlat (B S : Nat) (R : Nat → K) : Nat → K :=
+  fun k => sumTo S (fun j => R (((k / B) / S * S + j) * B + k % B)) / (S : K)
+/-- … and the last-dim baseline the mean over the STRIDE class of `f` modulo `S` (`f % S, f % S + S, …`, `A` members). -/
+def strideMeanFlat (B S A : Nat) (R : Nat → K) : Nat → K :=
+  fun k => sumTo A (fun i => R ((i * S + (k / B) % S) * B + k % B)) / (A : K)
+
 /-- reading X (the axis labels in `symnco/model.py`): problem-symmetricity term over the start axis when
 `S > 1`, solution-symmetricity term over the augmentation axis when `A > 1` -/
 def symncoRefX (B S A : Nat) (beta : K) (R ll : Nat → K) : K :=
@@ -125,6 +134,22 @@ def ppoActive (lo hi : K) (r A : K) : Bool :=
 /-- PPO reference directional derivative (at non-kink points) -/
 def ppoGrad (n : Nat) (lo hi vfL entL : K) (r A v R : Nat → K) (dS dv dh : Nat → K) : K :=
   -(sumTo n (fun i => if ppoActive lo hi (r i) (A i) then A i * (r i * dS i) else 0) / (n : K))
+    + vfL * (sumTo n (fun i => huber' (v i - R i) * dv i) / (n : K))
+    - entL * (sumTo n (fun i => dh i) / (n : K))
+
+/-- weight of a sample's `A·r·dΣll` in the derivative of the clipped surrogate at EVERY point, under the sub-gradient
+convention PyTorch uses (observed on torch 2.14): `clamp` passes no gradient at its bounds and `min` splits the gradient
+evenly at a tie — so a ratio sitting exactly on a clip bound counts one half. `passAtBound = true` is the other common
+convention (gradient of `clamp` passes at the bounds), under which such a sample counts fully. -/
+def ppoWeight (passAtBound : Bool) (lo hi r A : K) : K :=
+  if lo < r ∧ r < hi then 1
+  else if hi < r then (if A < 0 then 1 else 0)
+  else if r < lo then (if 0 < A then 1 else 0)
+  else if passAtBound then 1 else 1 / ((2 : Nat) : K)
+
+/-- PPO reference directional derivative at ALL points (kinks included), for a sub-gradient convention -/
+def ppoGradAll (passAtBound : Bool) (n : Nat) (lo hi vfL entL : K) (r A v R : Nat → K) (dS dv dh : Nat → K) : K :=
+  -(sumTo n (fun i => ppoWeight passAtBound lo hi (r i) (A i) * (A i * (r i * dS i))) / (n : K))
     + vfL * (sumTo n (fun i => huber' (v i - R i) * dv i) / (n : K))
     - entL * (sumTo n (fun i => dh i) / (n : K))
 
